@@ -11,9 +11,10 @@ RULES = {
     'R2': 'get: the refcount increment needs state == ACTIVE; destroy stores PENDINGREMOVAL before its put',
     'R3': 'hdb->destructor is invoked at one site, under dec_and_test(&ref_count), followed on every path by free(instance) and zeroing the entry',
     'R4': 'qb_hdb_iterator_next obtains instances only through qb_hdb_handle_get',
+    'R5': 'create hands out a handle only after setting ref_count to exactly 1 (absolute store), or else every decrement is refused for EMPTY slots',
     'W1': 'handle packing: check << 32 | index when created; >> 32 and & UINT32_MAX when resolved; qb_handle_t is 64 bits',
 }
-FLOORS = {'R1': 20, 'R2': 3, 'R3': 4, 'R4': 2, 'W1': 9}
+FLOORS = {'R1': 20, 'R2': 3, 'R3': 4, 'R4': 2, 'R5': 2, 'W1': 9}
 
 PUBLIC = ['qb_hdb_handle_get', 'qb_hdb_handle_put', 'qb_hdb_handle_destroy', 'qb_hdb_handle_refcount_get']
 
@@ -136,6 +137,7 @@ def run(ctx):
                       'qb_hdb_handle_destroy does not mark the entry PENDINGREMOVAL before dropping the reference')
     r3(ctx)
     r4(ctx)
+    r5(ctx)
     w1(ctx)
 
 
@@ -206,6 +208,37 @@ def r4(ctx):
     ctx.check('R4', 'iterator-no-direct-instance', not direct, direct[0] if direct else f,
               'iterator_next never reads entry->instance / writes *instance itself',
               'iterator_next hands out an instance without going through the ACTIVE/refcount gate')
+
+
+def r5(ctx):
+    prog = ctx.prog
+    c = prog.fn('qb_hdb_handle_create')
+    EMPTY = prog.enum('QB_HDB_HANDLE_STATE')['QB_HDB_HANDLE_STATE_EMPTY']
+    ACTIVE = prog.enum('QB_HDB_HANDLE_STATE')['QB_HDB_HANDLE_STATE_ACTIVE']
+    outs = [ev for ev in c.events('STORE') if unwrap(ev.lhs).get('k') == 'deref' and estr(unwrap(ev.lhs)['e']) == c.params[2]['n']]
+    if not outs:
+        raise AnalysisBroken('qb_hdb_handle_create: handle is not handed out through the out parameter')
+    # alternative (b): every decrement in put is refused for EMPTY slots
+    put = prog.fn('qb_hdb_handle_put')
+    decs = [ev for ev in put.events('CALL') if (refcount_op(ev.e, 'qb_hdb_handle', 'ref_count') or ('', ''))[0] == 'dec']
+
+    def nonempty_atom(a, fb):
+        return field_is(a.l, 'state', 'qb_hdb_handle') and ((a.op == '!=' and a.rc == EMPTY) or (a.op == '==' and a.rc not in (None, EMPTY)))
+    alt_b = bool(decs) and all(put.uncut_path(ev, nonempty_atom) is None for ev in decs)
+    for ev in outs:
+        sets = [st for st in c.stores(field='ref_count', rec='qb_hdb_handle')
+                if st.d['op'] == '=' and cval(unwrap(st.rhs)) == 1 and c.ev_dominates(st, ev)]
+        later = [x for x in c.events('CALL') if refcount_op(x.e, 'qb_hdb_handle', 'ref_count') and
+                 refcount_op(x.e)[0] in ('inc', 'dec', 'add', 'set') and any(c.may_follow(st, x) for st in sets)]
+        ok = (bool(sets) and not later) or alt_b
+        ctx.check('R5', 'create:count-is-one', ok, ev,
+                  'the handle is handed out only after ref_count = 1 was stored absolutely' if sets else 'EMPTY slots refuse decrements, relative count is sound',
+                  'a new object\'s reference count is relative to whatever a free slot was left with (a put on a free slot skews it): '
+                  'count != 1 + gets - puts, early destructor')
+    sts = [st for st in c.stores(field='state', rec='qb_hdb_handle')]
+    ctx.check('R5', 'create:state-active', bool(sts) and all(cval(unwrap(st.rhs)) == ACTIVE for st in sts) and
+              all(any(c.ev_dominates(st, ev) for st in sts) for ev in outs), sts[0] if sts else c,
+              'state = ACTIVE stored before the handle is handed out', 'handle handed out without the slot being ACTIVE')
 
 
 def w1(ctx):
